@@ -260,6 +260,13 @@ theorem double_roundtrip_exact (strtod : List Nat → Dbl) (hs : StrtodExact str
       exact scaled6_exact m e he
   exact ⟨key, key⟩
 
+/-- the assumption `StrtodExact` is satisfiable (non-vacuity of `double_roundtrip_exact`): the ideal, unrounded `strtod` on the
+    texts `[-]digits.digits` (value `num / 10^k` as `(num / 5^k) * 2^-k`) meets it - proved with coprimality of 5^k and 2^j -/
+theorem strtod_assumption_satisfiable : StrtodExact strtodIdeal := strtodIdeal_exact
+
+example : Dbl.eqv (toDouble strtodIdeal (fromDouble (.fin true 5 (-1)))) (.fin true 5 (-1)) :=
+  (double_roundtrip_exact strtodIdeal strtodIdeal_exact true 5 (-1) (by decide) (by decide) (by decide)).1
+
 /-- an integer `n` prints as its numeral followed by `.000000` -/
 theorem fromDouble_integer (neg : Bool) (n : Nat) :
     fromDouble (.fin neg n 0) = (if neg then [45] else []) ++ decDigits n ++ [46, 48, 48, 48, 48, 48, 48] := by
